@@ -1196,7 +1196,9 @@ def t12(ctx, res):
     if len(loops) == 1:
         lp = loops[0]
         e = norm(lp.target)
-        it_ok = has(f"self.seen[{o}.__name__]", lp.iter) and isinstance(lp.iter, ast.Subscript)
+        from .norm import text_resolver
+        R = text_resolver(vb)
+        it_ok = R(lp.iter) == f"self.seen[{o}.__name__]"
         paths = [p for p in __import__("sa.paths", fromlist=["enumerate_paths"]).enumerate_paths(lp.body) if p.exit == "return"]
         detail["returns"] = [(" and ".join(norm(t) for t, pol in p.conds if not isinstance(t, str)), norm(p.exit_node.value)) for p in paths]
         if it_ok and len(paths) == 1 and norm(paths[0].exit_node.value) == e:
@@ -1211,7 +1213,11 @@ def t12(ctx, res):
     res.judge(verdict, dd, "for existing in self.seen[name]: if object_type == existing: return existing", detail=detail,
               reason="every earlier class of the same title is compared by (structural) equality alone - an extra "
                      "pre-filter or a narrower scan creates duplicate classes for one object schema")
-    rec_ok = has(f"self.seen[{o}.__name__].append({o})", vb) and has(f"return {o}", vb)
+    from .norm import text_resolver
+    R = text_resolver(vb)
+    rec_ok = any(isinstance(x, ast.Call) and isinstance(x.func, ast.Attribute) and x.func.attr == "append"
+                 and R(x.func.value) == f"self.seen[{o}.__name__]" and x.args and norm(x.args[0]) == o for x in walk_own(vb)) \
+        and has(f"return {o}", vb)
     res.judge(True if rec_ok else None, dd, "new classes are recorded under their title and returned", reason="later occurrences can find them")
 
 
